@@ -73,9 +73,11 @@ def parseNat (s : Str) : Option Nat :=
 /-- Python `int(s)` for ASCII `s` (base 10): `none` = ValueError -/
 def pyInt? (s : Str) : Option Int :=
   match strip s with
-  | '-' :: r => (parseNat r).map fun n => -(Int.ofNat n)
-  | '+' :: r => (parseNat r).map Int.ofNat
-  | r => (parseNat r).map Int.ofNat
+  | [] => none
+  | c :: r =>
+      if c == '-' then (parseNat r).map fun n => -(Int.ofNat n)
+      else if c == '+' then (parseNat r).map Int.ofNat
+      else (parseNat (c :: r)).map Int.ofNat
 
 /-! ### dates and times -/
 
